@@ -1,10 +1,12 @@
 """Seams and the generic run harness.
 
 pycomm3 is imported lazily (after check.py has put VERIF_REPO, default /repo, first on
-sys.path) and its four nondeterminism seams are replaced by attribute assignment:
-  pycomm3.socket_.socket, pycomm3.cip_driver.socket, pycomm3.cip_driver.urandom,
-  pycomm3.logix_driver.time
-A missing seam is a HarnessError (exit 2), never a silent pass.
+sys.path).  Its nondeterminism seams are found by identity, not by name: every global of a
+pycomm3 module that *is* the socket module / socket class / a lookup function / os.urandom /
+the os module / the time module / time.time is replaced for the duration of one run (on the
+pinned tree: pycomm3.socket_.socket, pycomm3.cip_driver.socket, pycomm3.cip_driver.urandom,
+pycomm3.logix_driver.time).  No transport or no randomness reference at all is a HarnessError
+(exit 2), never a silent pass.
 """
 import logging
 import os
@@ -32,10 +34,7 @@ def lib():
         got = os.path.realpath(os.path.dirname(os.path.dirname(pycomm3.__file__)))
         if got != os.path.realpath(repo):
             raise HarnessError(f"pycomm3 imported from {got}, expected {repo}")
-        for mod, attr in ((pycomm3.socket_, "socket"), (pycomm3.cip_driver, "socket"),
-                          (pycomm3.cip_driver, "urandom"), (pycomm3.logix_driver, "time")):
-            if not hasattr(mod, attr):
-                raise HarnessError(f"seam {mod.__name__}.{attr} is gone")
+        _find_seams()
         _LIB = pycomm3
         # logging: real, but quiet by default and never to stderr
         root = logging.getLogger("pycomm3")
@@ -43,6 +42,46 @@ def lib():
         root.propagate = False
         root.setLevel(logging.CRITICAL + 10)
     return _LIB
+
+
+_SEAMS = []        # (module, attribute name, kind) - every place where the library holds a source of nondeterminism
+
+
+def _find_seams():
+    """scan the loaded pycomm3 modules for references to the real socket module / socket class / lookup
+    functions, os.urandom, the time module / time.time.  Finding them by identity instead of by name keeps
+    the harness working when the library is refactored (e.g. `import os` instead of `from os import urandom`
+    is still caught through the `os` module reference)."""
+    import socket as _rs
+    import os as _os
+    import time as _rt
+    kinds = [(_rs, "socket_module"), (_rs.socket, "socket_class"), (_rs.gethostbyname, "gethostbyname"),
+             (_rs.getaddrinfo, "getaddrinfo"), (_rs.gethostname, "gethostname"), (_rs.create_connection, "create_connection"),
+             (_os.urandom, "urandom"), (_os, "os_module"), (_rt, "time_module"), (_rt.time, "time_func")]
+    del _SEAMS[:]
+    for name, mod in sorted(sys.modules.items()):
+        if not (name == "pycomm3" or name.startswith("pycomm3.")) or mod is None:
+            continue
+        for attr, val in list(vars(mod).items()):
+            for obj, kind in kinds:
+                if val is obj:
+                    _SEAMS.append((mod, attr, kind))
+    have = {k for _, _, k in _SEAMS}
+    if not ({"socket_module", "socket_class"} & have):
+        raise HarnessError("no reference to the socket module/class found in pycomm3: transport seam is gone")
+    if not ({"urandom", "os_module"} & have):
+        raise HarnessError("no reference to os.urandom found in pycomm3: randomness seam is gone")
+
+
+class _OsProxy:
+    """stands in for the `os` module where the library holds a reference to it: urandom is seeded"""
+
+    def __init__(self, urandom):
+        self.urandom = urandom
+
+    def __getattr__(self, name):
+        import os as _os
+        return getattr(_os, name)
 
 
 class _ListHandler(logging.Handler):
@@ -88,15 +127,20 @@ class Seams:
     def _urandom(self, n):
         return bytes(self._urng.randrange(256) for _ in range(n))
 
+    def _no_create_connection(self, *a, **k):
+        raise HarnessError("library reached socket.create_connection: unsimulated transport call")
+
     def __enter__(self):
         p = lib()
-        import pycomm3.socket_ as s_
-        import pycomm3.cip_driver as c_
-        import pycomm3.logix_driver as l_
-        for mod, attr, val in ((s_, "socket", self.net.mod), (c_, "socket", self.net.mod),
-                               (c_, "urandom", self._urandom), (l_, "time", _Clock(self.sim))):
+        clock = _Clock(self.sim)
+        fake = {"socket_module": self.net.mod, "socket_class": self.net.mod.socket,
+                "gethostbyname": self.net.mod.gethostbyname, "getaddrinfo": self.net.mod.getaddrinfo,
+                "gethostname": self.net.mod.gethostname, "create_connection": self._no_create_connection,
+                "urandom": self._urandom, "os_module": _OsProxy(self._urandom), "time_module": clock,
+                "time_func": clock.time}
+        for mod, attr, kind in _SEAMS:
             self._saved.append((mod, attr, getattr(mod, attr)))
-            setattr(mod, attr, val)
+            setattr(mod, attr, fake[kind])
         root = logging.getLogger("pycomm3")
         if self.log_mode == "verbose":
             self.handler = _ListHandler()
